@@ -279,5 +279,138 @@ def _unguarded_chain(ctx, fn, depth, seen):
     return None
 
 
+CIPHER_CALLS = ("apply_keystream", "encrypt_in_place_detached", "decrypt_in_place_detached", "::encrypt", "::decrypt", "cipher_rtcp")
+ENCRYPTING = {"Aes128Sha1_80", "Aes128Sha1_32", "AeadAes128Gcm"}
+
+
+class _ProfileEval:
+    """reachability under the assumption `self._profile == V`: discriminant tests of the profile take only the edge for V,
+    bool values computed from the profile (a `matches!` local, `!x`, a crate predicate called on the profile) are
+    evaluated, everything else is followed both ways."""
+
+    def __init__(self, facts):
+        self.facts = facts
+
+    def _is_profile(self, t):
+        return (t[0] == "field" and t[2] == "_profile") or t == ("arg", "self") and False
+
+    def _edge_ok(self, meaning, v):
+        if isinstance(meaning, str):
+            return meaning == v
+        if isinstance(meaning, tuple) and meaning and meaning[0] == "not":
+            return v not in meaning[1]
+        return True
+
+    def value(self, b, t, v, profile_pred, depth=0):
+        """True / False / None for a bool term under profile v"""
+        if depth > 6:
+            return None
+        iv = mir.int_value(t)
+        if iv in (0, 1) and t[0] in ("const",):
+            return bool(iv)
+        if t[0] == "un" and t[1] == "Not":
+            x = self.value(b, t[2], v, profile_pred, depth + 1)
+            return None if x is None else (not x)
+        if t[0] == "var" and len(t) > 2:
+            reach = self.reach(b, v, profile_pred)
+            vals = set()
+            for d in b.defs().get(t[2], []):
+                if d[1] in reach:
+                    vals.add(self.value(b, b._term_def(d, 0, (t[2],)), v, profile_pred, depth + 1))
+            return vals.pop() if len(vals) == 1 else None
+        if t[0] == "call" and self.facts.has_body(t[1]) and t[2] and profile_pred(t[2][0]):
+            cb = self.facts.body(t[1])
+            pp = lambda x: x == ("arg", "self") or (x[0] == "deref" and x[1] == ("arg", "self"))
+            reach = self.reach(cb, v, pp)
+            vals = set()
+            for d in cb.defs().get(0, []):
+                if d[1] in reach:
+                    vals.add(self.value(cb, cb._term_def(d, 0, (0,)), v, pp, depth + 1))
+            return vals.pop() if len(vals) == 1 else None
+        return None
+
+    def reach(self, b, v, profile_pred):
+        seen, stack = set(), [0]
+        while stack:
+            bi = stack.pop()
+            if bi in seen or bi in b.cleanup:
+                continue
+            seen.add(bi)
+            blk = b.blocks[bi]
+            if blk["t"]["k"] == "switch":
+                term, outs = b.switch_info(bi)
+                if term[0] == "discr" and profile_pred(term[1]):
+                    stack += [tgt for tgt, _, m in outs if self._edge_ok(m, v)]
+                    continue
+                if not (term[0] == "discr"):
+                    # careful: evaluating a var needs reach() of the same body: only for non-discriminant bools, and the
+                    # recursion is bounded because value() is called on smaller terms
+                    pass
+                stack += [tgt for tgt, _, _ in outs]
+            else:
+                stack += [tgt for tgt, _ in b.succ_edges(bi)]
+        return seen
+
+    def reach_full(self, b, v, profile_pred):
+        """second pass: also prune bool switches whose value under v is known"""
+        base = self.reach(b, v, profile_pred)
+        seen, stack = set(), [0]
+        while stack:
+            bi = stack.pop()
+            if bi in seen or bi in b.cleanup:
+                continue
+            seen.add(bi)
+            blk = b.blocks[bi]
+            if blk["t"]["k"] == "switch":
+                term, outs = b.switch_info(bi)
+                if term[0] == "discr" and profile_pred(term[1]):
+                    stack += [tgt for tgt, _, m in outs if self._edge_ok(m, v)]
+                    continue
+                val = self.value(b, term, v, profile_pred) if term[0] != "discr" else None
+                if val is None:
+                    stack += [tgt for tgt, _, _ in outs]
+                else:
+                    stack += [tgt for tgt, _, m in outs if m is val]
+            else:
+                stack += [tgt for tgt, _ in b.succ_edges(bi)]
+        return seen & base | (seen - base)
+
+
+def r14_5(ctx):
+    """'never send cleartext': being inside protect() is not enough - protect() must encrypt. SrtpContext::protect /
+    unprotect (and the RTCP pair) transform the payload for every negotiable profile; the only profile that leaves the
+    payload as it is is the explicit NullCipherHmac (never negotiated: R14.4 / the profile tables). A rewritten
+    predicate that forgets a profile (a positive list without Aes128Sha1_32) sends that profile's media in clear
+    with a valid authentication tag, and rustrtc-to-rustrtc calls keep working."""
+    r = RuleResult("R14.5", "K6/eval", "protect / unprotect apply the cipher for every profile except NullCipherHmac")
+    ev = _ProfileEval(ctx.facts)
+    pp = lambda x: x[0] == "field" and x[2] == "_profile"
+    adt = [a for n, a in ctx.facts.adts.items() if n.endswith("srtp::SrtpProfile")]
+    if not adt:
+        raise core.CheckerError("R14.5: SrtpProfile not found")
+    variants = [v["name"] for v in adt[0]["variants"]]
+    n = 0
+    for fn in ("srtp::SrtpContext::protect", "srtp::SrtpContext::unprotect", "srtp::SrtpContext::protect_rtcp", "srtp::SrtpContext::unprotect_rtcp"):
+        b = ctx.body(fn)
+        r.scope.append(fn)
+        cipher = [bi for bi, t, p in b.calls() if p and p.endswith(CIPHER_CALLS) and bi not in b.cleanup]
+        if not cipher:
+            raise core.CheckerError("R14.5: no cipher call found in %s" % fn)
+        for v in variants:
+            if v not in ENCRYPTING:
+                continue
+            n += 1
+            reach = ev.reach_full(b, v, pp)
+            if any(c in reach for c in cipher):
+                r.ok({"function": fn.split("::")[-1], "profile": v, "cipher": "applied"} if n <= 16 else None)
+            else:
+                r.violate(fn, "cipher:%s" % v, b.where(cipher[0]),
+                          "with profile %s no cipher call is reachable in %s: the payload goes out (comes in) as it is, under a valid "
+                          "authentication tag" % (v, fn.split("::")[-1]))
+    r.samples = [x for x in r.samples if x]
+    r.need("profile x function combinations", n, 12)
+    return r
+
+
 def run(ctx):
-    return [r14_1(ctx), r14_2(ctx), r14_3(ctx), r14_4(ctx)]
+    return [r14_1(ctx), r14_2(ctx), r14_3(ctx), r14_4(ctx), r14_5(ctx)]
